@@ -92,3 +92,8 @@ Proof. intros Hi Hj. unfold Crc32.singles_fast. rewrite singles_aux_spec, app_ni
   rewrite rev_nth by (rewrite seq_length; exact Hp). rewrite seq_length, seq_nth by lia. cbn [Nat.add].
   unfold Crc32.crc. rewrite bits_of_single by assumption. rewrite crc_unit.
   unfold z, n. f_equal; f_equal; lia. Qed.
+
+Corollary single_bit_all L i j : (i < L)%nat -> (j < 8)%nat ->
+  nth (8 * i + j) (Crc32.singles_fast L) 0 = Crc32.crc (Crc32.single L i j) /\
+  length (Crc32.singles_fast L) = (8 * L)%nat.
+Proof. intros Hi Hj. split; [apply singles_fast_nth; assumption | apply singles_fast_length]. Qed.
